@@ -1,9 +1,11 @@
 package client
 
 import (
+	"bytes"
 	"crypto/sha256"
 	"encoding/binary"
 	"io"
+	"math"
 
 	"github.com/tokenized/pkg/bitcoin"
 	"github.com/tokenized/pkg/bsor"
@@ -14,6 +16,35 @@ import (
 
 	"github.com/pkg/errors"
 )
+
+// maxPreallocate is the most elements or bytes that are allocated up front on the word of a count
+// or size read from the stream. Anything above that is allocated as the data actually arrives, so
+// a few bytes claiming a huge count can't cause a huge allocation.
+const maxPreallocate = 4096
+
+// preallocate returns the capacity to allocate up front for a count read from the stream.
+func preallocate(count uint64) int {
+	if count > maxPreallocate {
+		return maxPreallocate
+	}
+	return int(count)
+}
+
+// readBytes reads size bytes from the reader. The buffer grows as the data arrives.
+func readBytes(r io.Reader, size uint64) ([]byte, error) {
+	if size > math.MaxInt64 {
+		return nil, errors.New("size over max")
+	}
+
+	buf := bytes.NewBuffer(make([]byte, 0, preallocate(size)))
+	if _, err := io.CopyN(buf, r, int64(size)); err != nil {
+		if err == io.EOF {
+			return nil, io.ErrUnexpectedEOF
+		}
+		return nil, err
+	}
+	return buf.Bytes(), nil
+}
 
 // Deserialize reads the message from a reader.
 func (m *Message) Deserialize(r io.Reader) error {
@@ -336,13 +367,13 @@ func (m *SubscribeTx) Deserialize(r io.Reader) error {
 		return errors.Wrap(err, "count")
 	}
 
-	m.Indexes = make([]uint32, count)
-	for i := range m.Indexes {
+	m.Indexes = make([]uint32, 0, preallocate(count))
+	for i := uint64(0); i < count; i++ {
 		index, err := wire.ReadVarInt(r, wire.ProtocolVersion)
 		if err != nil {
 			return errors.Wrapf(err, "index %d", i)
 		}
-		m.Indexes[i] = uint32(index)
+		m.Indexes = append(m.Indexes, uint32(index))
 	}
 
 	return nil
@@ -383,13 +414,13 @@ func (m *UnsubscribeTx) Deserialize(r io.Reader) error {
 		return errors.Wrap(err, "count")
 	}
 
-	m.Indexes = make([]uint32, count)
-	for i := range m.Indexes {
+	m.Indexes = make([]uint32, 0, preallocate(count))
+	for i := uint64(0); i < count; i++ {
 		index, err := wire.ReadVarInt(r, wire.ProtocolVersion)
 		if err != nil {
 			return errors.Wrapf(err, "index %d", i)
 		}
-		m.Indexes[i] = uint32(index)
+		m.Indexes = append(m.Indexes, uint32(index))
 	}
 
 	return nil
@@ -426,13 +457,13 @@ func (m *SubscribeOutputs) Deserialize(r io.Reader) error {
 		return errors.Wrap(err, "count")
 	}
 
-	m.Outputs = make([]*wire.OutPoint, count)
-	for i := range m.Outputs {
+	m.Outputs = make([]*wire.OutPoint, 0, preallocate(count))
+	for i := uint64(0); i < count; i++ {
 		outpoint := &wire.OutPoint{}
 		if err := outpoint.Deserialize(r); err != nil {
 			return errors.Wrapf(err, "outpoint %d", i)
 		}
-		m.Outputs[i] = outpoint
+		m.Outputs = append(m.Outputs, outpoint)
 	}
 
 	return nil
@@ -465,13 +496,13 @@ func (m *UnsubscribeOutputs) Deserialize(r io.Reader) error {
 		return errors.Wrap(err, "count")
 	}
 
-	m.Outputs = make([]*wire.OutPoint, count)
-	for i := range m.Outputs {
+	m.Outputs = make([]*wire.OutPoint, 0, preallocate(count))
+	for i := uint64(0); i < count; i++ {
 		outpoint := &wire.OutPoint{}
 		if err := outpoint.Deserialize(r); err != nil {
 			return errors.Wrapf(err, "outpoint %d", i)
 		}
-		m.Outputs[i] = outpoint
+		m.Outputs = append(m.Outputs, outpoint)
 	}
 
 	return nil
@@ -509,8 +540,8 @@ func (m *SubscribePushData) Deserialize(r io.Reader) error {
 		if err != nil {
 			return errors.Wrap(err, "size")
 		}
-		b := make([]byte, size)
-		if _, err := io.ReadFull(r, b); err != nil {
+		b, err := readBytes(r, size)
+		if err != nil {
 			return errors.Wrap(err, "push data")
 		}
 		m.PushDatas = append(m.PushDatas, b)
@@ -554,8 +585,8 @@ func (m *UnsubscribePushData) Deserialize(r io.Reader) error {
 		if err != nil {
 			return errors.Wrap(err, "size")
 		}
-		b := make([]byte, size)
-		if _, err := io.ReadFull(r, b); err != nil {
+		b, err := readBytes(r, size)
+		if err != nil {
 			return errors.Wrap(err, "push data")
 		}
 		m.PushDatas = append(m.PushDatas, b)
@@ -770,13 +801,13 @@ func (m *SendTx) Deserialize(r io.Reader) error {
 		return errors.Wrap(err, "count")
 	}
 
-	m.Indexes = make([]uint32, count)
-	for i := range m.Indexes {
+	m.Indexes = make([]uint32, 0, preallocate(count))
+	for i := uint64(0); i < count; i++ {
 		index, err := wire.ReadVarInt(r, wire.ProtocolVersion)
 		if err != nil {
 			return errors.Wrapf(err, "index %d", i)
 		}
-		m.Indexes[i] = uint32(index)
+		m.Indexes = append(m.Indexes, uint32(index))
 	}
 
 	return nil
@@ -813,8 +844,8 @@ func (m *SendExpandedTx) Deserialize(r io.Reader) error {
 		return errors.Wrap(err, "tx size")
 	}
 
-	script := make(bitcoin.Script, txSize)
-	if _, err := io.ReadFull(r, script); err != nil {
+	script, err := readBytes(r, txSize)
+	if err != nil {
 		return errors.Wrap(err, "script")
 	}
 
@@ -828,13 +859,13 @@ func (m *SendExpandedTx) Deserialize(r io.Reader) error {
 		return errors.Wrap(err, "count")
 	}
 
-	m.Indexes = make([]uint32, count)
-	for i := range m.Indexes {
+	m.Indexes = make([]uint32, 0, preallocate(count))
+	for i := uint64(0); i < count; i++ {
 		index, err := wire.ReadVarInt(r, wire.ProtocolVersion)
 		if err != nil {
 			return errors.Wrapf(err, "index %d", i)
 		}
-		m.Indexes[i] = uint32(index)
+		m.Indexes = append(m.Indexes, uint32(index))
 	}
 
 	return nil
@@ -880,8 +911,8 @@ func (m *SaveTxs) Deserialize(r io.Reader) error {
 		return errors.Wrap(err, "tx size")
 	}
 
-	script := make(bitcoin.Script, txsSize)
-	if _, err := io.ReadFull(r, script); err != nil {
+	script, err := readBytes(r, txsSize)
+	if err != nil {
 		return errors.Wrap(err, "script")
 	}
 
@@ -950,11 +981,13 @@ func (m *ReprocessTx) Deserialize(r io.Reader) error {
 		return errors.Wrap(err, "client id count")
 	}
 
-	m.ClientIDs = make([]bitcoin.Hash20, clientCount)
-	for i := range m.ClientIDs {
-		if err := m.ClientIDs[i].Deserialize(r); err != nil {
+	m.ClientIDs = make([]bitcoin.Hash20, 0, preallocate(clientCount))
+	for i := uint64(0); i < clientCount; i++ {
+		var clientID bitcoin.Hash20
+		if err := clientID.Deserialize(r); err != nil {
 			return errors.Wrapf(err, "client id %d", i)
 		}
+		m.ClientIDs = append(m.ClientIDs, clientID)
 	}
 
 	return nil
@@ -1266,13 +1299,13 @@ func (m *Headers) Deserialize(r io.Reader) error {
 		return errors.Wrap(err, "count")
 	}
 
-	m.Headers = make([]*wire.BlockHeader, count)
-	for i := range m.Headers {
+	m.Headers = make([]*wire.BlockHeader, 0, preallocate(count))
+	for i := uint64(0); i < count; i++ {
 		header := &wire.BlockHeader{}
 		if err := header.Deserialize(r); err != nil {
 			return errors.Wrapf(err, "header %d", i)
 		}
-		m.Headers[i] = header
+		m.Headers = append(m.Headers, header)
 	}
 
 	return nil
@@ -1354,13 +1387,13 @@ func (m *FeeQuotes) Deserialize(r io.Reader) error {
 		return errors.Wrap(err, "count")
 	}
 
-	m.FeeQuotes = make(merchant_api.FeeQuotes, count)
-	for i := range m.FeeQuotes {
+	m.FeeQuotes = make(merchant_api.FeeQuotes, 0, preallocate(count))
+	for i := uint64(0); i < count; i++ {
 		feeQuote, err := DeserializeFeeQuote(r)
 		if err != nil {
 			return errors.Wrapf(err, "fee quote %d", i)
 		}
-		m.FeeQuotes[i] = feeQuote
+		m.FeeQuotes = append(m.FeeQuotes, feeQuote)
 	}
 
 	return nil
@@ -1462,13 +1495,13 @@ func (m *PostMerkleProofs) Deserialize(r io.Reader) error {
 		return errors.Wrap(err, "count")
 	}
 
-	m.MerkleProofs = make([]*merkle_proof.MerkleProof, count)
-	for i := range m.MerkleProofs {
+	m.MerkleProofs = make([]*merkle_proof.MerkleProof, 0, preallocate(count))
+	for i := uint64(0); i < count; i++ {
 		merkleProof := &merkle_proof.MerkleProof{}
 		if err := merkleProof.Deserialize(r); err != nil {
 			return errors.Wrapf(err, "merkle proof %d", i)
 		}
-		m.MerkleProofs[i] = merkleProof
+		m.MerkleProofs = append(m.MerkleProofs, merkleProof)
 	}
 
 	return nil
@@ -1573,8 +1606,8 @@ func (m *Reject) Deserialize(r io.Reader) error {
 		return errors.Wrap(err, "message length")
 	}
 
-	b := make([]byte, length)
-	if _, err := io.ReadFull(r, b); err != nil {
+	b, err := readBytes(r, length)
+	if err != nil {
 		return errors.Wrap(err, "message")
 	}
 	m.Message = string(b)
@@ -1818,11 +1851,13 @@ func (m *MerkleProof) Deserialize(r io.Reader) error {
 	if err != nil {
 		return errors.Wrap(err, "layer count")
 	}
-	m.Path = make([]bitcoin.Hash32, count)
+	m.Path = make([]bitcoin.Hash32, 0, preallocate(count))
 	for i := uint64(0); i < count; i++ {
-		if err := m.Path[i].Deserialize(r); err != nil {
+		var hash bitcoin.Hash32
+		if err := hash.Deserialize(r); err != nil {
 			return errors.Wrap(err, "hash")
 		}
+		m.Path = append(m.Path, hash)
 	}
 
 	if err := m.BlockHeader.Deserialize(r); err != nil {
@@ -1833,13 +1868,13 @@ func (m *MerkleProof) Deserialize(r io.Reader) error {
 	if err != nil {
 		return errors.Wrap(err, "duplicate index count")
 	}
-	m.DuplicatedIndexes = make([]uint64, count)
+	m.DuplicatedIndexes = make([]uint64, 0, preallocate(count))
 	for i := uint64(0); i < count; i++ {
 		index, err := wire.ReadVarInt(r, wire.ProtocolVersion)
 		if err != nil {
 			return errors.Wrap(err, "duplicate index")
 		}
-		m.DuplicatedIndexes[i] = index
+		m.DuplicatedIndexes = append(m.DuplicatedIndexes, index)
 	}
 
 	return nil
